@@ -106,6 +106,27 @@ theorem layout_constants :
     Extracted.taskRunnableExistsSrc = "state & taskPOLLING != 0 && state & (taskWAKE_MASK | taskCLOSED) != 0" := by
   refine ⟨by decide, by decide, by decide, by decide, by decide, by decide, by decide⟩
 
+/-- **task_operations_are_single_read_modify_writes** — the atomic operations of every handle operation, in textual
+order, read from the source on every run: each operation decides *and* acts with one read-modify-write on the state
+word (`wake`: one `fetch_add`; `clone_waker`: one `fetch_add`; `drop_waker`, token drop, promise drop: one `fetch_sub`;
+token cancel, promise poll, `Runnable::run` / cancel: compare-and-swap loops and the `fetch_and` / `fetch_sub` after a
+poll) — this is the step structure of M-TASK.  A load in front of a read-modify-write whose result is then ignored (the
+decision taken on a stale value) changes these lists. -/
+theorem task_operations_are_single_read_modify_writes :
+    Extracted.taskOpsTaskCloneWaker = [.rmw "state" "fetch_add" .relaxed] ∧
+    Extracted.taskOpsTaskWake = [.rmw "state" "fetch_add" .release] ∧
+    Extracted.taskOpsTaskWakeByVal = [.fence .acquire] ∧
+    Extracted.taskOpsTaskDropWaker = [.rmw "state" "fetch_sub" .release, .fence .acquire] ∧
+    Extracted.taskOpsRunnableRun = [.load "state" .acquire, .fence .acquire, .cas "state" .release .relaxed,
+      .rmw "state" "fetch_and" .release, .fence .acquire, .rmw "state" "fetch_sub" .acqrel] ∧
+    Extracted.taskOpsRunnableCancel = [.fence .acquire, .cas "state" .release .relaxed, .fence .acquire] ∧
+    Extracted.taskOpsTokenCancel = [.cas "state" .acqrel .relaxed, .fence .acquire, .rmw "state" "fetch_sub" .release,
+      .fence .acquire] ∧
+    Extracted.taskOpsTokenDrop = [.rmw "state" "fetch_sub" .release, .fence .acquire] ∧
+    Extracted.taskOpsPromisePoll = [.cas "state" .acquire .relaxed] ∧
+    Extracted.taskOpsPromiseDrop = [.rmw "state" "fetch_sub" .release, .fence .acquire] := by
+  refine ⟨by decide, by decide, by decide, by decide, by decide, by decide, by decide, by decide, by decide, by decide⟩
+
 /-! ## non-vacuity -/
 example : Reach spawn ∧ (opRun {} [([.cloneCx], false)] 0 spawn).1.wakers = 1 := ⟨Reach.spawn, by decide⟩
 
